@@ -140,6 +140,36 @@ impl Check for C01 {
     }
     fn gen_plan(&self, seed: u64, idx: u64, _thorough: bool) -> Value {
         let mut g = Gen::new(seed, "c01");
+        if idx % 10 == 4 {
+            // the same property through the whole system: 1-4 concurrent SOCKS5 / HTTP CONNECT tunnels (real
+            // Client, sessions over real rustls, real Server and handler) each moving seeded byte streams of
+            // boundary sizes in both directions at once between a simulated application and target
+            let mut net = crate::tierb::calm_net(&mut g);
+            if net["pipe"]["lat"][1].as_u64().unwrap_or(0) > 300 {
+                net["pipe"]["lat"] = json!([0, 300]);
+            }
+            let nt = g.range(1, 4);
+            let mut budget: i64 = 700_000;
+            let mut size = |g: &mut Gen| -> u64 {
+                let mut s = *g.pick(&[0u64, 1, 100, 8_191, 8_192, 8_193, 16_384, 65_535, 65_536, 100_000, 300_000]) as i64;
+                if g.chance(30) {
+                    s = g.range(0, 40_000) as i64;
+                }
+                if s > budget {
+                    s = 1_000;
+                }
+                budget -= s;
+                s as u64
+            };
+            let tunnels: Vec<Value> = (0..nt)
+                .map(|_| {
+                    let up = size(&mut g);
+                    let down = size(&mut g);
+                    json!({"via": *g.pick(&["socks5", "socks5", "http"]), "up": up, "down": down, "wchunk": *g.pick(&[1u64, 100, 1_460, 8_192, 16_384, 70_000]), "tchunk": *g.pick(&[1u64, 512, 8_192, 8_193, 100_000]), "start_ms": *g.pick(&[0u64, 0, 1, 30])})
+                })
+                .collect();
+            return json!({"net": net, "mode": "system", "tunnels": tunnels, "scheme": if g.chance(60) { DEFAULT_SCHEME.to_string() } else { gen_scheme_small(&mut g) }});
+        }
         if idx % 10 == 9 {
             // the Stream object driven through its AsyncRead / AsyncWrite implementation (how library users
             // and the unit tests use it), fed and drained by the harness in place of the session
@@ -166,6 +196,9 @@ impl Check for C01 {
         Box::pin(async move {
             if plan["mode"] == "owned" {
                 return run_owned(plan).await;
+            }
+            if plan["mode"] == "system" {
+                return run_system(plan).await;
             }
             let mut out = Outcome::ok();
             let scheme = plan["padding"].as_str().unwrap_or("stop=0");
@@ -385,5 +418,137 @@ async fn run_owned(plan: &Value) -> Outcome {
     feeder.abort();
     out.nontrivial = true;
     out.summary = json!({"mode": "owned", "in": inbound, "out": outbound});
+    out
+}
+
+
+/// Byte-exactness end to end: application <-> front-end <-> client <-> TLS <-> server <-> target.
+async fn run_system(plan: &Value) -> Outcome {
+    use crate::tierb::*;
+    use anytls_simnet::net;
+    use tokio::io::{AsyncReadExt, AsyncWriteExt};
+    let mut out = Outcome::ok();
+    reset_process_state().await;
+    let padding = factory(plan["scheme"].as_str().unwrap_or(DEFAULT_SCHEME));
+    start_server(padding.clone());
+    let client = make_client(padding, quiet_pool(), PASSWORD);
+    start_socks5(client.clone());
+    start_http(client.clone());
+    let tunnels = plan["tunnels"].as_array().cloned().unwrap_or_default();
+    // targets: port 9100+i serves tunnel i: sends `down` tagged bytes while collecting what arrives
+    let results: Arc<std::sync::Mutex<Vec<Option<Vec<u8>>>>> = Arc::new(std::sync::Mutex::new(vec![None; tunnels.len()]));
+    {
+        let mut wild = net::install_wildcard();
+        let (tun2, res2) = (tunnels.clone(), results.clone());
+        anytls_simnet::spawn(async move {
+            while let Some(inc) = wild.recv().await {
+                let i = (inc.dialed.port() as usize).wrapping_sub(9100);
+                let Some(t) = tun2.get(i).cloned() else { continue };
+                let res3 = res2.clone();
+                anytls_simnet::spawn(async move {
+                    let (mut r, mut w) = inc.stream.into_split();
+                    let down = content(0xD000 + i as u64, t["down"].as_u64().unwrap_or(0) as usize);
+                    let chunk = std::cmp::max(1, t["tchunk"].as_u64().unwrap_or(8192) as usize);
+                    let wt = anytls_simnet::spawn(async move {
+                        for c in down.chunks(chunk) {
+                            if w.write_all(c).await.is_err() {
+                                break;
+                            }
+                        }
+                        // keep the sending side open: nothing in this check closes a tunnel
+                        std::future::pending::<()>().await;
+                    });
+                    let want = t["up"].as_u64().unwrap_or(0) as usize;
+                    let mut got = Vec::with_capacity(want);
+                    let mut b = vec![0u8; 8192];
+                    while got.len() < want {
+                        match timeout(Duration::from_secs(120), r.read(&mut b)).await {
+                            Ok(Ok(n)) if n > 0 => got.extend_from_slice(&b[..n]),
+                            _ => break,
+                        }
+                    }
+                    // a little longer: nothing more may follow
+                    if let Ok(Ok(n)) = timeout(Duration::from_secs(2), r.read(&mut b)).await {
+                        got.extend_from_slice(&b[..n]);
+                    }
+                    res3.lock().unwrap()[i] = Some(got);
+                    let _ = wt.await;
+                });
+            }
+        });
+    }
+    tokio::time::sleep(Duration::from_millis(1)).await;
+    let mut apps = Vec::new();
+    for (i, t) in tunnels.iter().enumerate() {
+        let t = t.clone();
+        apps.push(anytls_simnet::spawn(async move {
+            tokio::time::sleep(Duration::from_millis(t["start_ms"].as_u64().unwrap_or(0))).await;
+            let port = 9100 + i as u16;
+            let stream = if t["via"] == "http" {
+                match http_connect(&format!("198.51.100.20:{}", port)).await {
+                    Ok((s, l)) if l.contains(" 200 ") => s,
+                    other => return Err(format!("tunnel {} set-up: {:?}", i, other.map(|x| x.1))),
+                }
+            } else {
+                match socks5_connect("198.51.100.20", port).await {
+                    Ok((s, 0)) => s,
+                    other => return Err(format!("tunnel {} set-up: {:?}", i, other.map(|x| x.1))),
+                }
+            };
+            let (mut r, mut w) = stream.into_split();
+            let up = content(0xA000 + i as u64, t["up"].as_u64().unwrap_or(0) as usize);
+            let chunk = std::cmp::max(1, t["wchunk"].as_u64().unwrap_or(8192) as usize);
+            let wt = anytls_simnet::spawn(async move {
+                for c in up.chunks(chunk) {
+                    if w.write_all(c).await.is_err() {
+                        break;
+                    }
+                }
+                std::future::pending::<()>().await;
+            });
+            let want = t["down"].as_u64().unwrap_or(0) as usize;
+            let mut got = Vec::with_capacity(want);
+            let mut b = vec![0u8; 8192];
+            while got.len() < want {
+                match timeout(Duration::from_secs(120), r.read(&mut b)).await {
+                    Ok(Ok(n)) if n > 0 => got.extend_from_slice(&b[..n]),
+                    _ => break,
+                }
+            }
+            if let Ok(Ok(n)) = timeout(Duration::from_secs(2), r.read(&mut b)).await {
+                got.extend_from_slice(&b[..n]);
+            }
+            drop(wt);
+            Ok(got)
+        }));
+    }
+    let mut moved = 0usize;
+    for (i, a) in apps.into_iter().enumerate() {
+        let want = content(0xD000 + i as u64, tunnels[i]["down"].as_u64().unwrap_or(0) as usize);
+        moved += want.len();
+        match a.await {
+            Ok(Ok(got)) => {
+                if got != want {
+                    let kind = if got.len() < want.len() && want.starts_with(&got) { "missing" } else if got.len() > want.len() && got.starts_with(&want) { "extra" } else { "content" };
+                    out.viol(kind, format!("system:{}:down:{}", kind, tunnels[i]["via"].as_str().unwrap_or("")), format!("tunnel {} ({}): the target sent {} bytes, the application received {} (first difference at {:?})", i, tunnels[i]["via"], want.len(), got.len(), got.iter().zip(want.iter()).position(|(a, b)| a != b)));
+                }
+            }
+            Ok(Err(e)) => out.viol("write-failed", "system:tunnel-setup-failed", e),
+            Err(e) => out.viol("task", "task-died", format!("{}", e)),
+        }
+    }
+    tokio::time::sleep(Duration::from_secs(5)).await;
+    let res = results.lock().unwrap().clone();
+    for (i, t) in tunnels.iter().enumerate() {
+        let want = content(0xA000 + i as u64, t["up"].as_u64().unwrap_or(0) as usize);
+        moved += want.len();
+        let got = res[i].clone().unwrap_or_default();
+        if got != want && out.viols.len() < 4 {
+            let kind = if got.len() < want.len() && want.starts_with(&got) { "missing" } else if got.len() > want.len() && got.starts_with(&want) { "extra" } else { "content" };
+            out.viol(kind, format!("system:{}:up:{}", kind, t["via"].as_str().unwrap_or("")), format!("tunnel {} ({}): the application sent {} bytes in {}-byte writes, the target received {} (first difference at {:?})", i, t["via"], want.len(), t["wchunk"], got.len(), got.iter().zip(want.iter()).position(|(a, b)| a != b)));
+        }
+    }
+    out.nontrivial = moved > 0;
+    out.summary = json!({"mode": "system", "tunnels": tunnels.len(), "bytes": moved});
     out
 }
